@@ -51,6 +51,7 @@ def pool():
             data.Tag(term=T1, value="zz"),  # 5 E  (never in a vocabulary)
             data.Tag(term=T9, value="a"),  # 6 F  (never in a vocabulary)
         ]
+        _POOL["unicode"] = [data.Tag(term=T1, value="Pin\u0303on"), data.Tag(term=T1, value="Pi\u00f1on"), data.Tag(term=T1, value="\ufb01sh"), data.Tag(term=T1, value="fish"), data.Tag(term=T1, value="A"), data.Tag(term=T1, value="a")]
     return _POOL["tags"]
 
 
@@ -172,6 +173,12 @@ def _check_encoding(spec, ctx, all_tags, vocab, tags, scores):
 def check_small(spec, ctx):
     tags = pool()
     _check_encoding(spec, ctx, tags, [tags[i] for i in spec["vocab"]], [tags[i] for i in spec["tags"]], spec["scores"])
+    if len(spec["vocab"]) <= 1 and len(spec["tags"]) <= 1:
+        # unicode look-alikes (canonically equivalent but distinct strings) are distinct tags
+        u = _POOL["unicode"]
+        for k in range(len(u)):
+            vocab_u = [u[k]] + [tags[i] for i in spec["vocab"] if tags[i] != u[k]]
+            _check_encoding(spec, ctx, u, vocab_u, [u[(k + 1) % len(u)], u[k]], [0.25, 1.0])
 
 
 def check_random(spec, ctx):
